@@ -7,6 +7,7 @@ import (
 
 	ethbridgetypes "github.com/Sifchain/sifnode/x/ethbridge/types"
 	sdk "github.com/cosmos/cosmos-sdk/types"
+	stakingtypes "github.com/cosmos/cosmos-sdk/x/staking/types"
 
 	"sifverif/chain"
 	"sifverif/env"
@@ -182,6 +183,19 @@ func RunBridgeHistories(c Ctx, rep *report.Report, rng *chain.Rng, o BOpts, next
 				mustOK(e.Tx(e.Admin, p), "pause")
 				rep.Count("admin.pause-toggle")
 			}
+			if fs == nil && rng.Intn(9) == 0 {
+				// stake moves in the middle of a block: a validator's operator undelegates part of its own stake (the validator's
+				// tokens drop at once; the staking module's power index and "last validator power" only follow at EndBlock)
+				vi := rng.Intn(nv)
+				if v, found := e.App.StakingKeeper.GetValidator(e.Ctx(), e.ValAddr(vi)); found && v.Tokens.IsPositive() {
+					part := v.Tokens.MulRaw(int64(10 + rng.Intn(60))).QuoRaw(100)
+					if part.IsPositive() {
+						um := stakingtypes.NewMsgUndelegate(e.Vals[vi].Addr, e.ValAddr(vi), sdk.NewCoin(e.BondDenom, part))
+						r := e.Tx(e.Vals[vi], um)
+						rep.Count("staking.undelegate-inside-block." + okStr(r.Code == 0))
+					}
+				}
+			}
 			w := rng.Intn(o.ClaimW + o.LockW + o.AdminW)
 			if fs != nil {
 				if fs.kind == 1 {
@@ -206,10 +220,12 @@ func RunBridgeHistories(c Ctx, rep *report.Report, rng *chain.Rng, o BOpts, next
 				}
 				recv := e.Users[ev%2].Addr
 				amount := new(big.Int).Mul(big.NewInt(int64(10+ev)), chain.E(18))
-				symbol := []string{"eth", "usdc", "dash"}[ev%3]
+				// locks of Ethereum assets (credited as "c" + symbol — also when the asset's own symbol begins with that letter:
+				// "comp", or a token that calls itself "ceth"), and burns of a Sifchain-native asset (credited in the symbol itself)
+				symbol := []string{"eth", "usdc", "dash", "comp", "ceth"}[ev%5]
 				ctype := ethbridgetypes.ClaimType_CLAIM_TYPE_LOCK
-				if ev%3 == 2 {
-					ctype = ethbridgetypes.ClaimType_CLAIM_TYPE_BURN // burn of a Sifchain-native asset: credited in the symbol itself
+				if ev%5 == 2 {
+					ctype = ethbridgetypes.ClaimType_CLAIM_TYPE_BURN
 				}
 				switch variant {
 				case 1:
